@@ -13,25 +13,47 @@ import specs as S  # noqa: E402
 
 
 def _write_ws(src):
+    """The scratch workspace for one rendered witness source (keyed by tree state and source): created atomically
+    (written aside, then renamed), stamped on every use, and pruned only when unused for an hour."""
+    import tempfile
+    import time
     h = hashlib.sha256(src.encode()).hexdigest()[:16]
-    d = os.path.join(facts.CACHE, "wit", "ws-%s-%s" % (facts.tree_key(), h))
+    root = os.path.join(facts.CACHE, "wit")
+    d = os.path.join(root, "ws-%s-%s" % (facts.tree_key(), h))
+    os.makedirs(root, exist_ok=True)
     if not os.path.exists(os.path.join(d, "wit", "src", "lib.rs")):
-        root = os.path.join(facts.CACHE, "wit")
-        if os.path.isdir(root):
-            import time
-            ents = sorted(os.listdir(root), key=lambda e: os.path.getmtime(os.path.join(root, e)))
+        try:
+            ents = sorted((e for e in os.listdir(root) if e.startswith("ws-")), key=lambda e: _mtime(os.path.join(root, e)))
             for e in ents[:-8]:
                 # never remove a workspace another check may be building right now
-                if time.time() - os.path.getmtime(os.path.join(root, e)) > 3600:
+                if time.time() - _mtime(os.path.join(root, e)) > 3600:
                     shutil.rmtree(os.path.join(root, e), ignore_errors=True)
-        os.makedirs(os.path.join(d, "wit", "src"))
-        with open(os.path.join(d, "wit", "Cargo.toml"), "w") as f:
+        except OSError:
+            pass
+        tmp = tempfile.mkdtemp(prefix=".new-", dir=root)
+        os.makedirs(os.path.join(tmp, "wit", "src"))
+        with open(os.path.join(tmp, "wit", "Cargo.toml"), "w") as f:
             f.write('[package]\nname = "wit"\nversion = "0.0.0"\nedition = "2021"\n\n[workspace]\n\n[dependencies]\n'
                     'microscpi = { path = "%s/microscpi" }\nheapless = "0.8.0"\n' % facts.REPO)
-        shutil.copy(os.path.join(facts.REPO, "Cargo.lock"), os.path.join(d, "wit", "Cargo.lock"))
-        with open(os.path.join(d, "wit", "src", "lib.rs"), "w") as f:
+        shutil.copy(os.path.join(facts.REPO, "Cargo.lock"), os.path.join(tmp, "wit", "Cargo.lock"))
+        with open(os.path.join(tmp, "wit", "src", "lib.rs"), "w") as f:
             f.write(src)
+        try:
+            os.rename(tmp, d)
+        except OSError:
+            shutil.rmtree(tmp, ignore_errors=True)     # another check created the same workspace meanwhile
+    try:
+        os.utime(d, None)
+    except OSError:
+        pass
     return d, h
+
+
+def _mtime(p):
+    try:
+        return os.path.getmtime(p)
+    except OSError:
+        return 0
 
 
 def build(ck, seed, count, extra_specs=None):
